@@ -274,12 +274,18 @@ func wideLRUCase(k *engine.Case) {
 		k.Count("lru_cases_capacity_near_maxint64", 1)
 	}
 	singleCap := capacity
+	tight := false
 	if r.Intn(7) == 0 {
 		// one shard, tight capacity: the sharded cache is then one LRU of capacity/1+1, and every
 		// answer (including which entry an insertion evicts) must equal the unsharded cache of
 		// that capacity - recency handling of the wrapper (Exist/Peek must not refresh) shows here
 		rt.n = 1
+		tight = true
 		capacity = int64(1 + r.Intn(8))
+		if r.Intn(2) == 0 {
+			// room for a dozen entries or two: entries read long before the shard fills up
+			capacity = []int64{9, 12, 16, 20, 31, 40}[r.Intn(6)]
+		}
 		singleCap = capacity + 1
 		k.Count("lru_cases_one_shard_tight", 1)
 	}
@@ -337,6 +343,10 @@ func wideLRUCase(k *engine.Case) {
 	}
 	pool := genPool(k, rt, 4+r.Intn(20), "lru")
 	nops := 30 + r.Intn(120)
+	if tight && capacity > 8 {
+		pool = genPool(k, rt, int(capacity)+2+r.Intn(12), "lru")
+		nops = 120 + r.Intn(200)
+	}
 	val := 0
 	for i := 0; i < nops; i++ {
 		key := pickKey(r, pool, rt)
@@ -344,6 +354,9 @@ func wideLRUCase(k *engine.Case) {
 		case x < 4:
 			val++
 			sz := r.Intn(9)
+			if tight && capacity > 8 && r.Intn(5) > 0 {
+				sz = 1 + r.Intn(2)
+			}
 			if useTiny && r.Intn(8) == 0 {
 				sz = -1 // stores the untyped nil
 				k.Count("lru_set_nil_value", 1)
